@@ -410,3 +410,65 @@ def check_mul_cancels_first(facts, rep):
         rep.violation('E1.R5-cancel-before-multiply', inst, 'Ratio::mul_assign: ' + '; '.join(sorted(set(probs))), where=b.where())
     else:
         rep.ok('E1.R5-cancel-before-multiply', inst, '%d paths: no reduce / division after a product' % n)
+
+
+def check_quot_rem_pairs(facts, rep):
+    """R6 (C14, "the order on rationals is the order of Q" - the comparison walks the continued fractions with floor
+    divisions): every function of yui::types::ratio that returns a pair (q', r') built from x / y and x % y returns a
+    *division with remainder*: q'*y + r' = x on every returning path, as a polynomial identity with x % y := x - (x / y)*y.
+    Lowering the quotient to the floor without adding y to the remainder (or the other way round) keeps every type and
+    every assertion quiet; the pair is then not a decomposition of x any more."""
+    from symex import SymEx
+    from e3_gcd import _padd, _pmul, _pshow, _Opaque
+    n = 0
+    P = lambda *m: {tuple(sorted(m)): 1}
+    for k, b in sorted(facts.bodies.items()):
+        if not (k.startswith('yui::types::ratio::') or k.startswith('yui::<types::ratio::')) or '::tests::' in k or b.arg_count != 2:
+            continue
+        try:
+            paths = SymEx(b, max_paths=2000).run()
+        except TooManyPaths:
+            continue
+        rets = [p for p in paths if p.end == 'return' and p.ret is not None and p.ret[0] == 'tuple' and len(p.ret[1]) == 2]
+        if not rets or not any('div(arg1, arg2)' in sk(p.ret) and 'rem(arg1, arg2)' in sk(p.ret) for p in rets):
+            continue
+        rep.saw(b)
+        inst = '%s|q*y + r = x on every returning path' % k.split('::')[-1]
+
+        def ev(t):
+            t = strip(t)
+            if t == ('arg', 1):
+                return P('x')
+            if t == ('arg', 2):
+                return P('y')
+            if t[0] == 'call':
+                last = t[1].split('::')[-1]
+                if last in ('div', 'rem') and len(t[2]) == 2 and strip(t[2][0]) == ('arg', 1) and strip(t[2][1]) == ('arg', 2):
+                    return P('Q') if last == 'div' else _padd(P('x'), _pmul(P('Q'), P('y')), -1)
+                if last in ('add', 'sub') and len(t[2]) == 2:
+                    return _padd(ev(t[2][0]), ev(t[2][1]), 1 if last == 'add' else -1)
+                if last == 'neg' and len(t[2]) == 1:
+                    return _padd({}, ev(t[2][0]), -1)
+                if last == 'mul' and len(t[2]) == 2:
+                    return _pmul(ev(t[2][0]), ev(t[2][1]))
+                if last == 'one' and not t[2]:
+                    return {(): 1}
+                if last == 'zero' and not t[2]:
+                    return {}
+            raise _Opaque(sk(t)[:60])
+        bad = []
+        try:
+            for p in rets:
+                q_, r_ = ev(p.ret[1][0]), ev(p.ret[1][1])
+                lhs = _padd(_pmul(q_, P('y')), r_)
+                if lhs != P('x'):
+                    bad.append('(q, r) = (%s, %s) gives q*y + r = %s' % (_pshow(q_), _pshow(r_), _pshow(lhs)))
+        except _Opaque as ex:
+            rep.indet('E1.R6: %s returns a quotient / remainder pair outside the recognised fragment: %s' % (k, ex))
+            continue
+        n += 1
+        if bad:
+            rep.violation('E1.R6-quot-rem-pair', inst, '%s: %s, not x (Q = x / y truncated, x %% y = x - Q*y): the pair is no division with remainder, the continued-fraction comparison of two rationals is decided on a wrong remainder' % (k, '; '.join(sorted(set(bad)))), where=b.where())
+        else:
+            rep.ok('E1.R6-quot-rem-pair', inst, '%d returning path(s)' % len(rets))
+    rep.floor('E1.R6 quotient / remainder helpers of Ratio', n, 1)
